@@ -879,6 +879,60 @@ def c09_packing(b, rng, N, maxlen, sample=None):
                     for j in range(i + 1, len(gates)):
                         if set(prog[i]) & set(prog[j]) and not pos[id(gates[i])] < pos[id(gates[j])]:
                             bad = 'overlapping gates #%d %s and #%d %s are not executed in the order added' % (i, prog[i], j, prog[j])
+            if bad is None and cls == 'CliffordCircuit' and sample is None and len(prog) >= 3:
+                # the same scan on a COPY that then takes one more gate (every possible support), and the consistency of the two
+                # directions of the layer chain (backward runs through prev_layer, forward through next_layer)
+                for extra in supports:
+                    try:
+                        cp = circ.copy()
+                        fwd = list(cp.layers_forward())
+                        bwd = list(cp.layers_backward())
+                        if [id(x) for x in reversed(bwd)] != [id(x) for x in fwd]:
+                            bad = 'the copy of the circuit is traversed backward through different layers than forward (%d vs %d)' % (len(bwd), len(fwd))
+                            break
+                        ge = pcirc.CliffordGate(*extra)
+                        cp.take(ge)
+                        sch = schedule_of(cp)
+                        if len(sch) != len(gates) + 1:
+                            bad = 'copy-then-take loses or duplicates a gate'
+                            break
+                        pos_c = [li for li, g_ in sch]
+                        sup_c = [tuple(g_.qubits) for li, g_ in sch]
+                        le = [li for li, g_ in sch if g_ is ge][0]
+                        for (li, g_) in sch:
+                            if g_ is not ge and set(g_.qubits) & set(extra) and not li < le:
+                                bad = 'a gate on %s taken by a COPY of the circuit is scheduled before / beside the overlapping gate on %s' % (extra, tuple(g_.qubits))
+                        if bad:
+                            prog_bad = prog + (extra,)
+                            break
+                    except Exception as e:
+                        b.fail('packing_copy.raises', repr(e)[:200], {'supports': [list(q) for q in prog], 'N': N})
+                        break
+                if bad is not None:
+                    # confirm on the action: original gates + the extra gate with random contents, through a copy
+                    for attempt in range(6):
+                        conts = []
+                        c0 = pcirc.CliffordCircuit(N)
+                        for q in prog:
+                            gm, pm = all_maps(len(q), rng, 1)[int(rng.integers(0, 24)) if len(q) == 1 else 0]
+                            conts.append((q, gm, pm))
+                            g_ = pcirc.CliffordGate(*q); g_.set_forward_map(CM(gm.copy(), pm.copy())); c0.take(g_)
+                        cp = c0.copy()
+                        gm, pm = all_maps(len(extra), rng, 1)[int(rng.integers(0, 24)) if len(extra) == 1 else 0]
+                        conts.append((extra, gm, pm))
+                        g_ = pcirc.CliffordGate(*extra); g_.set_forward_map(CM(gm.copy(), pm.copy())); cp.take(g_)
+                        S = O.all_strings(N)
+                        l1 = PL(np.array(S), np.zeros(len(S), dtype=np.int64)); l2 = PL(np.array(S), np.zeros(len(S), dtype=np.int64))
+                        l3 = PL(np.array(S), np.zeros(len(S), dtype=np.int64))
+                        cp.forward(l1)
+                        for q, gm_, pm_ in conts:
+                            g_ = pcirc.CliffordGate(*q); g_.set_forward_map(CM(gm_.copy(), pm_.copy())); g_.forward(l2)
+                        cp.forward(l3); cp.backward(l3)
+                        if not same_list(l1, l2) or not same_list(l3, PL(np.array(S), np.zeros(len(S), dtype=np.int64))):
+                            b.fail('packing_copy', 'copy of a circuit: %s; forward / backward of the (extended) copy differ from gate-by-gate application' % bad,
+                                   {'supports': [list(q) for q in prog], 'extra': list(extra), 'N': N})
+                            break
+                    continue
             if bad is None:
                 continue
             # candidate: confirm on the action with random gate contents
@@ -1508,6 +1562,26 @@ def c14_trajectory(run, Nmax=3, programs=60):
                                    dict(inp, own_record=rec if cobj is circ else None, supplied=rec2))
                 except Exception as e:
                     b.fail('circuit_backward_supplied_record.raises', repr(e)[:200], dict(inp, record=rec))
+            # records that differ from the recorded one in ONE entry: impossible ones must raise, possible ones give their adjoint
+            if rec and pure_in:
+                for kflip in range(len(rec)):
+                    rec1 = list(rec)
+                    rec1[kflip] = -rec1[kflip]
+                    want1 = adjoint(rec1, O.rho(st))
+                    fin1 = mk_state(st.gs, st.ps, st.r)
+                    b.case()
+                    try:
+                        circ.backward(fin1, measure_result=list(rec1))
+                        if want1 is None:
+                            b.fail('circuit_backward_impossible_entry', 'backward accepted a record whose entry %d contradicts the final state' % kflip,
+                                   dict(inp, record=rec, supplied=rec1))
+                        elif not O.eq(O.rho(fin1), want1):
+                            b.fail('circuit_backward_supplied_record', 'backward with one flipped (possible) entry is not the adjoint of that trajectory', dict(inp, record=rec, supplied=rec1))
+                    except ValueError:
+                        if want1 is not None:
+                            b.fail('circuit_backward_possible_entry', 'backward rejected a possible record (entry %d flipped)' % kflip, dict(inp, record=rec, supplied=rec1))
+                    except Exception as e:
+                        b.fail('circuit_backward.raises', repr(e)[:200], inp)
             # an impossible record must raise
             if rec:
                 flipped = [-x for x in rec]
@@ -1623,6 +1697,14 @@ def c15_algebra(run, Nmax=2, trees=300):
                 continue
             if not O.eq(any_dense(res, N), want):
                 b.fail('alg_' + name, 'result of %s is not the corresponding matrix operation' % name, inp)
+        # a monomial (all four phases, complex coefficient): its inverse is the matrix inverse
+        mono = P(gens.bits(rng, 2 * N), int(rng.integers(0, 4))).as_monomial().set_c(num if abs(num) > 0.05 else 1.0 + 0j)
+        Mm = any_dense(mono, N)
+        inp = {'monomial': describe(mono)}
+        b.case(sample=inp)
+        ok, mi = guard(b, 'alg_monomial_inverse', lambda: mono.inverse(), inp)
+        if ok and not (O.eq(any_dense(mi, N) @ Mm, np.eye(2 ** N)) and O.eq(any_dense(mono, N), Mm)):
+            b.fail('alg_monomial_inverse', 'inverse() of a monomial is not the matrix inverse (or changed the monomial)', inp)
         if isinstance(x, pa.PauliPolynomial):
             inp = {'x': describe(x)}
             b.case()
